@@ -2,9 +2,31 @@
 from props import hdlc_model as M, dlde_model as DM
 from pyvc import run
 
+def group_canaries(repo):
+    """the reader invariants the size bounds are proved from are satisfiable with data held (each `never` must be refuted): guards against a vacuous proof from a contradictory invariant"""
+    import z3
+    from pyvc.engine import State, Obligation
+    eng = M.mk_engine(repo); M.frame_obligations(eng, want=()); out = []
+    for cfg in ((False, False), (True, True)):
+        for in_frame in (False, True):
+            st = State(); rd, buf = M.mk_reader(st, cfg, in_frame, tag="__c19", eng=eng); M.assume_inv(st, rd); v = M.reader_view(st, rd)
+            held = [v["b"].n >= 2, v["pl"] >= 1]
+            if in_frame:
+                d = st.getf(v["fr"], "_frame_data"); held += [d.n >= 1, v["raw"].n >= 1]
+            bound = lambda K, v=v: [v["b"].n <= K, v["raw"].n <= K, v["gt"] <= 2 * K + 4]
+            out.append(Obligation(f"canary.c19_hdlc_reader_never_holds_data[{M.cfg_label(cfg, in_frame)}]", list(st.pc), z3.Not(z3.And(*held)), kind="canary", expect_refuted=True, meta={"refute_bound": bound}))
+    eng2 = DM.mk_engine(repo); DM.install_p1(eng2)
+    for hunt in (True, False):
+        st = State(); rd, buf = DM.mk_p1reader(st, hunt, tag="__c19", eng=eng2)
+        for _, g in DM.p1_inv(st, rd): st.pc.append(g)
+        v = DM.p1_view(st, rd); held = [v["pl"] >= 1] + ([] if hunt else [v["raw"].n >= 6])
+        bound = lambda K, v=v: [v["b"].n <= K, v["raw"].n <= K, v["gt"] <= 3 * K + 4]
+        out.append(Obligation(f"canary.c19_p1_reader_never_holds_data[{'hunt' if hunt else 'collecting'}]", list(st.pc), z3.Not(z3.And(*held)), kind="canary", expect_refuted=True, meta={"refute_bound": bound}))
+    return eng, out, {}
+
 KEEP = ("C19", "2047", "consumed", "buffer position", "raw view", "pre:", "inv-entry", "dec#")
 def build(repo, tier, seed):
-    tasks = M.hdlc_tasks(repo, None, True) + [("p1reader", DM.group_p1reader, (repo,))]
+    tasks = M.hdlc_tasks(repo, None, True) + [("p1reader", DM.group_p1reader, (repo,)), ("C19 invariant canaries", group_canaries, (repo,))]
     r = M.groups_result(tasks, select=None)
     r.functions = sorted(set(M.READER_FUNCS) | set(DM.P1_FUNCS))
     r.assumptions = ["retained memory = the reader's byte buffers (_buffer, _raw_frame_data / _raw_data, current frame octets); Python object overhead is a constant per reader",
